@@ -566,7 +566,13 @@ where
         let wait_item = Item::Wait(wg.add(1));
         match self.insert_buf_tx.try_send(wait_item) {
             Ok(_) => {
-                wg.wait().await;
+                // close() raises the flag before it stops the processor, and the processor
+                // releases what is buffered when it stops: if the flag is still down here, the
+                // item was queued in time to be released; if it is up, nobody may be left to
+                // release it, so do not block.
+                if !self.is_closed.load(Ordering::SeqCst) {
+                    wg.wait().await;
+                }
                 Ok(())
             }
             Err(e) => Err(CacheError::SendError(format!(
@@ -616,6 +622,7 @@ where
         #[cfg(transparencies_stretto_verif)]
         crate::verif::yield_point("close.after_clear");
         // Block until processItems thread is returned
+        self.is_closed.store(true, Ordering::SeqCst);
         self.stop_tx.send(()).await.map_err(|e| {
             CacheError::SendError(format!("fail to send stop signal to working thread, {}", e))
         })?;
@@ -739,6 +746,8 @@ where
                         }
                     },
                     _ = self.stop_rx.recv().fuse() => {
+                        // release the callers of wait() whose items are still buffered
+                        let _ = CacheCleaner::new(&mut self).clean().await;
                         _ = self.handle_close_event();
                         return;
                     },
